@@ -390,11 +390,11 @@ func c16Oracle(c *cConfig, v c16Verdict, desc string) []Fail {
 	var fails []Fail
 	if v.Panicked() {
 		// accepted => must instantiate and run; not accepted => must be an error value
-		fails = append(fails, Fail{c16Sig(v), fmt.Sprintf("%s: %s in stage %s (%s)", desc, v.String(), v.Stage, v.Detail)})
+		fails = append(fails, Fail{c16Sig(v), fmt.Sprintf("%s, stage %s: %s -- configuration: %s", v.String(), v.Stage, v.Detail, desc)})
 	}
 	if v.Verify == "ok" {
 		if bad := c16UnknownRefs(c); len(bad) > 0 {
-			fails = append(fails, Fail{"c16:unvalidated-reference", fmt.Sprintf("%s: accepted although %s names no schema field", desc, strings.Join(bad, ", "))})
+			fails = append(fails, Fail{"c16:unvalidated-reference", fmt.Sprintf("accepted (%s) although %s names no schema field -- configuration: %s", v.String(), strings.Join(bad, ", "), desc)})
 		}
 	}
 	return fails
